@@ -17,4 +17,5 @@ def run(ctx):
     ds.run_cli_stream(ctx, 8 if quick else 120, 2, props={'C01'}, stream='partly_managed', script=ds.script_partial_manifest)
     ds.run_hist_stream(ctx, 6 if quick else 80, 8, props={'C01'}, weights={'deploy': 1}, stream='after_empty_rollback',
                        plan_script=ds.hist_after_empty_rollback, setup=ds.setup_two_roots)
+    ds.run_cli_stream(ctx, 6 if quick else 100, 3, props={'C01'}, stream='symlinked_outputs', script=ds.script_symlinked_outputs, setup=ds.setup_two_roots)
     ds.run_lib_stream(ctx, 80 if quick else 1500, props={'C01'})
